@@ -8,6 +8,7 @@
            _refuted = the faithful model of the current code violates the
                       property's statement (witness given). *)
 From Coq Require Import ZArith List Bool Reals Lra.
+Set Warnings "-ambiguous-paths".
 From Coquelicot Require Import Coquelicot.
 From SVP Require Import Base.Num Base.Cplx Model.Arc
      Proofs.ArcR Proofs.ArcDeriv Proofs.ArcApprox.
